@@ -17,6 +17,9 @@
 //   I SMIX seed k size n               k*N64 gen_rand64 draws, one fill_array64(size), n gen_rand64    (direct, optional)
 //   I KAT                              first five gen_rand32 after init_gen_rand(1234)                  (direct, optional)
 //   I KATP                             Uniform(0,1), seed 1234, first 3 values (public API known answer)
+//   I REF seed n                       library words 0-2, 622-625, n-2, n-1 of gen_rand32, a checksum of all n, and Uniform(0,1) draw n/2;
+//                                      P: the library equals an independent SFMT-19937 written from the recurrence (32/64-bit, fill, public stream)
+//   I STI seed a b n                   integer mode on [a,b): bucket counts + draws outside; P chi-square
 //   I STU seed min max n / I STG seed mean sd n     sample mean and variance of n values
 //   I F8 raw min max mode              the value getValue()/getIntValue() returns when the raw word drawn is `raw`
 //                                      (through the SIMBODY_VERIF injection hook when the library has it; otherwise the
@@ -77,13 +80,21 @@ static std::string rangeClass(double mn, double mx) {
     if (mn < 0) return "straddle";
     return "positive";
 }
-static void rangePreds(const char* fn, const std::vector<double>& v, double mn, double mx) {
+// range predicates.  The value of the `returns_max` predicate (finding F8) is the number of draws equal to max in the
+// record, except for tiny ranges (a few ulps wide, where rounding must land on max) where it is the *fraction* of such draws:
+// on the unchanged tree it is <= 1 in every class, so a cap of 1 on the known-finding entry still flags a regression that
+// returns max systematically.  Returns true when max was hit (the caller then repeats the record without P lines so that the
+// O-line comparison with the model is never lost on exactly these records).
+static bool rangePreds(const char* fn, const std::vector<double>& v, double mn, double mx) {
     double below = 0, above = 0, atmax = 0;
     for (double x : v) { if (!(x >= mn)) below++; if (x > mx) above++; if (x == mx) atmax++; }
     std::string k = std::string("Random.Uniform.") + fn;
     vh::P("ge_min", k + ".ge_min", below, 0);
     vh::P("le_max", k + ".le_max", above, 0);
-    vh::P("lt_max", k + ".returns_max", atmax, 0);      // finding F8 when it fails
+    bool tiny = rangeClass(mn, mx) == "tiny";
+    vh::P("lt_max", k + ".returns_max", tiny && !v.empty() ? atmax / (double)v.size() : atmax, 0);      // finding F8 when it fails
+    if (atmax > 0) vh::D(std::string("returns_max.") + fn + "." + rangeClass(mn, mx));
+    return atmax > 0;
 }
 static void seedAndSkip(Random& r, int seed, long skip) { r.setSeed(seed); for (long i = 0; i < skip; ++i) r.getValue(); }
 
@@ -93,11 +104,16 @@ static void caseU(int seed, double mn, double mx, long skip, int n) {
     vh::I("U").i(seed).d(mn).d(mx).i(skip).i(n).emit();
     vh::Line o = vh::O("U"); for (double x : v) o.d(x); o.emit();
     vh::D("U." + rangeClass(mn, mx) + (skip + n > 1024 ? ".refill" : ""));
-    rangePreds("getValue", v, mn, mx);
+    bool hit = rangePreds("getValue", v, mn, mx);
     // determinism: a second object and the same object reseeded give the identical sequence
     Random::Uniform u2(mn, mx); seedAndSkip(u2, seed, skip); seedAndSkip(u, seed, skip);
     double diff = 0; for (double x : v) { double a = u2.getValue(), b = u.getValue(); if (hex(a) != hex(x) || hex(b) != hex(x)) diff++; }
     vh::P("deterministic", "Random.Uniform.getValue.same_seed_same_sequence", diff, 0);
+    if (hit) {   // correspondence-only twin of a record whose F8 predicate failed
+        vh::I("U").i(seed).d(mn).d(mx).i(skip).i(n).emit();
+        vh::Line o2 = vh::O("U"); for (double x : v) o2.d(x); o2.emit();
+        vh::D("U.twin_without_predicates");
+    }
 }
 static void caseUI(int seed, double mn, double mx, long skip, int n, const char* cls) {
     Random::Uniform u(mn, mx); seedAndSkip(u, seed, skip);
@@ -105,10 +121,15 @@ static void caseUI(int seed, double mn, double mx, long skip, int n, const char*
     vh::I("UI").i(seed).d(mn).d(mx).i(skip).i(n).emit();
     vh::Line o = vh::O("UI"); for (double x : v) o.i((long long)x); o.emit();
     vh::D(std::string("UI.") + cls);
-    rangePreds("getIntValue", v, mn, mx);
+    bool hit = rangePreds("getIntValue", v, mn, mx);
     Random::Uniform u2(mn, mx); seedAndSkip(u2, seed, skip);
     double diff = 0; for (double x : v) if ((double)u2.getIntValue() != x) diff++;
     vh::P("deterministic", "Random.Uniform.getIntValue.same_seed_same_sequence", diff, 0);
+    if (hit) {
+        vh::I("UI").i(seed).d(mn).d(mx).i(skip).i(n).emit();
+        vh::Line o2 = vh::O("UI"); for (double x : v) o2.i((long long)x); o2.emit();
+        vh::D("UI.twin_without_predicates");
+    }
 }
 static void caseG(int seed, double m, double s, long skip, int n) {
     Random::Gaussian g(m, s); seedAndSkip(g, seed, skip);
@@ -261,6 +282,70 @@ static void caseKATP() {
     double e0 = res53(((uint64_t)KAT[1] << 32) | KAT[0]), e1 = res53(((uint64_t)KAT[3] << 32) | KAT[2]);
     vh::P("reference_output", "Random.Uniform.seed1234.published_reference", (v[0] != e0) + (v[1] != e1), 0);
 }
+// ---------------------------------------------------------------------------------------------------------------
+// SFMT-19937 written independently from the defining recurrence of Saito & Matsumoto (MCQMC 2006), not from /repo:
+//   w_n = w_{n-N} ^ (w_{n-N} <<128 8) ^ ((w_{n-N+122} >>32 11) & MSK) ^ (w_{n-2} >>128 8) ^ (w_{n-1} <<32 18),   N = 156,
+// 128-bit words held in unsigned __int128 (lane k = bits 32k..32k+31), seeding by the MT19937 LCG 1812433253 and the
+// period certification with parity vector (1, 0, 0, 0x13c9e684).  Used as the reference the library is compared with over
+// thousands of words (the published SFMT.19937.out.txt prefix known with certainty is only five words long).
+namespace ref {
+typedef unsigned __int128 u128;
+static u128 pack(uint32_t a, uint32_t b, uint32_t c, uint32_t d) { return (u128)a | ((u128)b << 32) | ((u128)c << 64) | ((u128)d << 96); }
+static uint32_t lane(u128 x, int k) { return (uint32_t)(x >> (32 * k)); }
+static u128 shr32(u128 x, int s) { return pack(lane(x, 0) >> s, lane(x, 1) >> s, lane(x, 2) >> s, lane(x, 3) >> s); }
+static u128 shl32(u128 x, int s) { return pack(lane(x, 0) << s, lane(x, 1) << s, lane(x, 2) << s, lane(x, 3) << s); }
+struct Sfmt {
+    enum { N = 156 };
+    u128 w[N]; int pos;      // pos: index of the next 32-bit word inside the current block (4N = block used up)
+    explicit Sfmt(uint32_t seed) {
+        uint32_t s[4 * N]; s[0] = seed;
+        for (int i = 1; i < 4 * N; ++i) s[i] = 1812433253u * (s[i - 1] ^ (s[i - 1] >> 30)) + (uint32_t)i;
+        const uint32_t parity[4] = {0x00000001u, 0u, 0u, 0x13c9e684u};
+        uint32_t acc = 0; for (int k = 0; k < 4; ++k) acc ^= s[k] & parity[k];
+        if ((__builtin_popcount(acc) & 1) == 0) s[0] ^= 1u;     // lowest set bit of the parity vector: bit 0 of word 0
+        for (int i = 0; i < N; ++i) w[i] = pack(s[4 * i], s[4 * i + 1], s[4 * i + 2], s[4 * i + 3]);
+        pos = 4 * N;
+    }
+    void block() {
+        const u128 MSK = pack(0xdfffffefu, 0xddfecb7fu, 0xbffaffffu, 0xbffffff6u);
+        for (int i = 0; i < N; ++i) {
+            u128 a = w[i], b = w[(i + 122) % N], c = w[(i + N - 2) % N], d = w[(i + N - 1) % N];
+            w[i] = a ^ (a << 8) ^ (shr32(b, 11) & MSK) ^ (c >> 8) ^ shl32(d, 18);
+        }
+        pos = 0;
+    }
+    uint32_t next32() { if (pos >= 4 * N) block(); uint32_t r = lane(w[pos / 4], pos % 4); ++pos; return r; }
+    uint64_t next64() { uint64_t lo = next32(); uint64_t hi = next32(); return lo | (hi << 32); }
+};
+}
+// library against the independent reference: n 32-bit words, n/2 64-bit words, one fill_array32 block, and the public
+// Uniform(0,1) stream (n/2 draws, crossing several 1024-word buffer refills).  The O line shows words of the *library*.
+static void caseREF(uint32_t seed, int n) {
+    vh::I("REF").i((int)seed).i(n).emit();
+    vh::Line o = vh::O("REF");
+    double d32 = 0, d64 = 0, dfill = 0, dpub = 0;
+    if (direct::ok) {
+        direct::Gen g(seed); ref::Sfmt r(seed); uint32_t x = 0;
+        for (int i = 0; i < n; ++i) { uint32_t a = direct::g32(g.d), b = r.next32(); x ^= a * (uint32_t)(2 * i + 1); if (a != b) d32++;
+            if (i < 3 || (i >= 622 && i < 626) || i >= n - 2) o.i(a); }
+        o.i(x);
+        direct::Gen g2(seed); ref::Sfmt r2(seed);
+        for (int i = 0; i < n / 2; ++i) if (direct::g64(g2.d) != r2.next64()) d64++;
+        direct::Gen g3(seed); ref::Sfmt r3(seed); int size = 4 * (N32 / 4 + 217); std::vector<uint32_t> a(size + 4);
+        direct::f32(a.data(), size, g3.d); for (int i = 0; i < size; ++i) if (a[i] != r3.next32()) dfill++;
+        direct::f32(a.data(), size, g3.d); for (int i = 0; i < size; ++i) if (a[i] != r3.next32()) dfill++;
+    } else o.s("direct_unavailable");
+    Random::Uniform u; u.setSeed((int)seed); ref::Sfmt rp(seed);
+    for (int i = 0; i < n / 2; ++i) { double got = u.getValue(), want = res53(rp.next64()); if (hex(got) != hex(want)) dpub++; if (i == n / 2 - 1) o.d(got); }
+    o.emit();
+    vh::D(direct::ok ? "REF.direct_and_public" : "REF.public_only");
+    if (direct::ok) {
+        vh::P("reference_output", "SFMT.gen_rand32.equals_independent_reference", d32, 0);
+        vh::P("reference_output", "SFMT.gen_rand64.equals_independent_reference", d64, 0);
+        vh::P("reference_output", "SFMT.fill_array32.equals_independent_reference", dfill, 0);
+    }
+    vh::P("reference_output", "Random.Uniform.stream.equals_independent_reference", dpub, 0);
+}
 static void stats(const std::vector<double>& v, double& mean, double& var) {
     double s = 0; for (double x : v) s += x; mean = s / (double)v.size();
     double ss = 0; for (double x : v) ss += (x - mean) * (x - mean); var = ss / ((double)v.size() - 1);
@@ -271,10 +356,31 @@ static void caseSTU(int seed, double mn, double mx, int n) {
     double m, var; stats(v, m, var);
     vh::I("STU").i(seed).d(mn).d(mx).i(n).emit();
     vh::O("STU").d(m).d(var).emit();
-    vh::D("STU");
-    double r = mx - mn, ev = r * r / 12;
-    vh::P("mean_z", "Random.Uniform.stats.mean", std::fabs(m - (mn + mx) / 2) / std::sqrt(ev / n), 5);
-    vh::P("var_z", "Random.Uniform.stats.variance", std::fabs(var - ev) / (ev * std::sqrt(0.8 / n)), 5);   // kurtosis 1.8
+    vh::D("STU." + rangeClass(mn, mx));
+    // z-scores on the normalised variable (x-min)/(max-min) in [0,1]: no overflow/underflow whatever the scale of the range
+    double r = mx - mn, su = 0; std::vector<double> w(n);
+    for (int i = 0; i < n; ++i) { w[i] = (v[i] - mn) / r; su += w[i]; }
+    double mu = su / n, ssu = 0; for (double x : w) ssu += (x - mu) * (x - mu);
+    double vu = ssu / (n - 1.0);
+    bool tiny = rangeClass(mn, mx) == "tiny";      // a range of a few ulps is a lattice of 2-17 points: its moments are not 1/2, 1/12
+    if (!tiny) {
+        vh::P("mean_z", "Random.Uniform.stats.mean", std::fabs(mu - 0.5) / std::sqrt(1.0 / 12 / n), 5);
+        vh::P("var_z", "Random.Uniform.stats.variance", std::fabs(vu - 1.0 / 12) / (1.0 / 12 * std::sqrt(0.8 / n)), 5);   // kurtosis 1.8
+    }
+}
+// integer mode on [a,b): bucket counts (exact, compared with the model) and a chi-square predicate against the uniform law
+static void caseSTI(int seed, int a, int b, int n) {
+    Random::Uniform u(a, b); u.setSeed(seed);
+    std::vector<long long> cnt(b - a, 0); double outside = 0;
+    for (int i = 0; i < n; ++i) { int x = u.getIntValue(); if (x >= a && x < b) cnt[x - a]++; else outside++; }
+    vh::I("STI").i(seed).i(a).i(b).i(n).emit();
+    vh::Line o = vh::O("STI"); for (auto c : cnt) o.i(c); o.i((long long)outside); o.emit();
+    vh::D("STI.buckets" + std::to_string(b - a));
+    double e = (double)n / (b - a), chi = 0; for (auto c : cnt) chi += (c - e) * (c - e) / e;
+    // P(chi2_df > bound) ~ 6e-7 (the 5-sigma level): df 1: 25.0, 2: 28.7, 3: 31.8, 5: 37.3, 9: 46.5
+    int df = b - a - 1; double bound = df <= 1 ? 25.0 : df == 2 ? 28.7 : df == 3 ? 31.8 : df <= 5 ? 37.3 : 46.5;
+    vh::P("chi2", "Random.Uniform.getIntValue.stats.bucket_chi2", chi, bound);
+    vh::P("in_buckets", "Random.Uniform.getIntValue.stats.outside_range", outside, 0);
 }
 static void caseSTG(int seed, double mu, double sd, int n) {
     Random::Gaussian g(mu, sd); g.setSeed(seed);
@@ -334,6 +440,8 @@ static void replay() {
         else if (fn == "KATP") caseKATP();
         else if (fn == "STU" && t.size() == 4) caseSTU(I(0), Dd(1), Dd(2), I(3));
         else if (fn == "STG" && t.size() == 4) caseSTG(I(0), Dd(1), Dd(2), I(3));
+        else if (fn == "STI" && t.size() == 4) caseSTI(I(0), I(1), I(2), I(3));
+        else if (fn == "REF" && t.size() == 2) caseREF((uint32_t)I(0), I(1));
         else if (fn == "F8" && t.size() == 4) caseF8(std::strtoull(t[0].c_str(), nullptr, 10), Dd(1), Dd(2), I(3));
         else if (direct::ok) {
             if (fn == "S32" && t.size() == 3) caseS32((uint32_t)I(0), I(1), I(2));
@@ -391,6 +499,7 @@ int main(int argc, char** argv) {
     if (direct::ok) caseKAT(); else vh::D("sfmt_direct.unavailable");
     vh::D(direct::forceRaw ? "hook.forceRaw.present" : "hook.forceRaw.absent");
     for (int s : {0, 1, -1}) { caseU(s, 0, 1, 0, 16); caseU(s, 0, 1, 1016, 16); }
+    caseREF(1234u, 6000); caseREF(4321u, 2600); caseREF((uint32_t)g.next(), big ? 200000 : 6000);
     // F8 boundary raws: u = 1.0 exactly (raw >= 2^64-2^10) and u = 1-2^-53
     const uint64_t rawOne = ~0ull, rawEdge = 0xFFFFFFFFFFFFFC00ull, rawBelow = 0xFFFFFFFFFFFFFBFFull, rawU53 = 0xFFFFFFFFFFFFF800ull;
     caseF8(rawOne, 0, 1, 0); caseF8(rawEdge, 0, 1, 0); caseF8(rawBelow, 0, 1, 0);
@@ -452,5 +561,7 @@ int main(int argc, char** argv) {
     { double mn, mx; pickRange(g, mn, mx); caseSTU((int)(args.seed * 31 + 2), mn, mx, ns); }
     caseSTG((int)(args.seed * 31 + 3), 0, 1, ns);
     caseSTG((int)(args.seed * 31 + 4), g.signedMag(0.1, 10), g.range(0.1, 10), ns);
+    caseSTI((int)(args.seed * 31 + 5), 0, 3, ns); caseSTI((int)(args.seed * 31 + 6), -2, 1, ns);
+    caseSTI((int)(args.seed * 31 + 7), 0, 2, ns); caseSTI((int)(args.seed * 31 + 8), -5, 5, big ? 10 * ns : ns);
     return 0;
 }
